@@ -75,6 +75,8 @@ type Knobs struct {
 	PExtremePriority           float64 // workload priority class with a value near the int32 limits
 	PDanglingQueue             float64 // the cluster contains 1-2 pending pod groups whose queue does not exist
 	PEarlyRecreate             float64 // workload controllers: a terminating pod is replaced by a pending one at once
+	// DRA (see dra.go): probability that the case contains resource.k8s.io objects; 0 = no extra draws, no objects
+	PDRA float64
 }
 
 var allActions = "allocate, consolidation, reclaim, preempt, stalegangeviction"
@@ -89,10 +91,10 @@ func Base() Knobs {
 		KindWeights:             map[string]int{"cpu": 3, "besteffort": 1, "whole": 5, "fraction": 3, "gpumem": 2, "multifrac": 1, "mig": 1, "ext": 1},
 		PNodeSelector:           0.15, PNodeAffinity: 0.1, PToleration: 0.3, PAntiAffinity: 0.08, PAffinity: 0.05, PTopology: 0.12,
 		Fill: 0.55, PTerminating: 0.2, PBinding: 0.12, PBoundPending: 0.08,
-		ActionsChoices: []string{allActions, allActions, allActions, "allocate", "allocate, reclaim", "allocate, preempt", "allocate, consolidation", "allocate, reclaim, preempt"},
-		PStaleGang:     0.04,
+		ActionsChoices:   []string{allActions, allActions, allActions, "allocate", "allocate, reclaim", "allocate, preempt", "allocate, consolidation", "allocate, reclaim, preempt"},
+		PStaleGang:       0.04,
 		PExtremePriority: 0.05, PDanglingQueue: 0.04,
-		PFaults:        0.3, CyclesMin: 2, CyclesMax: 5, PNodePool: 0.1, SmallNodes: true, PForeignPod: 0.1, PInitContainers: 0.15,
+		PFaults: 0.3, CyclesMin: 2, CyclesMax: 5, PNodePool: 0.1, SmallNodes: true, PForeignPod: 0.1, PInitContainers: 0.15,
 	}
 }
 
@@ -105,6 +107,7 @@ func Profile(name string) Knobs {
 		k.PSmallPods = 0.4
 		k.PExtRes = 0.4
 		k.KindWeights = map[string]int{"cpu": 3, "besteffort": 1, "whole": 5, "fraction": 3, "gpumem": 2, "multifrac": 1, "mig": 1, "ext": 4}
+		k.PDRA = 0.3 // DRA (dra.go)
 	case "fractions": // C02
 		k.NodesMax = 3
 		k.GPUChoices = []int{1, 2, 2, 4}
@@ -177,6 +180,7 @@ func Profile(name string) Knobs {
 		k.ActionsChoices = []string{allActions, allActions, "allocate, reclaim, preempt", "allocate, consolidation, reclaim"}
 		k.KindWeights = map[string]int{"cpu": 1, "whole": 7, "fraction": 3, "gpumem": 1}
 		k.PNotReady, k.PUnschedulable = 0, 0
+		k.PDRA = 0.3 // DRA (dra.go)
 	case "accounting": // C13 / C14: many simulated steps, shared GPUs, solver actions
 		k.PStaleGang = 0.12
 		k.Fill, k.PTerminating, k.PBinding = 0.75, 0.2, 0.1
@@ -186,6 +190,7 @@ func Profile(name string) Knobs {
 		k.PFaults = 0.2
 		k.NoEvictCallFaults = true
 		k.PTopology = 0.1
+		k.PDRA = 0.35 // DRA (dra.go)
 	case "mixed":
 	}
 	return k
@@ -287,6 +292,7 @@ func GenerateWith(k Knobs, profile string, seed int64, index int, tier string) *
 	}
 	g.staleGangs()
 	LabelForNodePool(g.c)
+	g.genDRA() // DRA (dra.go): last drawing step; draws nothing when PDRA == 0
 	return g.c
 }
 
